@@ -174,7 +174,8 @@ def _has_optional_constructed(desc):
 def f15(mod, plan, viol):
     from simkit import universe as U
     return (viol['sig'][0] == 'encoder-rejects-accepted-value' and _c10_family(plan) in ('cer', 'der')
-            and U.has_kind(plan['workload']['desc'], U.TIMES) and _c10_clean_under_ber(mod, plan))
+            and (U.has_kind(plan['workload']['desc'], U.TIMES) or viol.get('detail', {}).get('result_has_time'))
+            and _c10_clean_under_ber(mod, plan))
 
 
 @classifier('f16_empty_optional_constructed_omitted')
